@@ -24,6 +24,10 @@ OBLIGATIONS = [
        unwind=3, cbmc_flags=('--no-unwinding-assertions',), min_covers=2, functions=F, timeout=240,
        desc='first/next under concurrent enqueuers: successor in queue order, NULL only at the then-last node, WOULDBLOCK only on an in-flight link; queue unchanged'),
 ]
+OBLIGATIONS.append(Ob(name='C10.O3.lock_discipline.wfcq', harness='C11/lockdisc.c', entry='h_lock_wfcq', defines=('PART_WFCQ',), unwind=3, min_covers=2, checks=('--bounds-check', '--signed-overflow-check', '--div-by-zero-check'), functions=('cds_wfcq_dequeue_blocking', 'cds_wfcq_dequeue_with_state_blocking', 'cds_wfcq_splice_blocking'), timeout=300, native=True,
+    desc='mutex-protected consumer wrappers (cds_wfcq_dequeue_blocking, cds_wfcq_dequeue_with_state_blocking, cds_wfcq_splice_blocking): every access to the consumer-side words happens with the structure\'s own mutex held, taken once and released once; result = result of the lock-free core (mutual exclusion of consumers is the documented scheme that rules out ABA / torn dequeues)'))
+OBLIGATIONS.append(Ob(name='C10.O3.lock_discipline.wfq', harness='C11/lockdisc.c', entry='h_lock_wfq', defines=('PART_WFQ',), unwind=3, min_covers=2, checks=('--bounds-check', '--signed-overflow-check', '--div-by-zero-check'), functions=('cds_wfq_dequeue_blocking',), timeout=300, native=True,
+    desc='mutex-protected consumer wrappers (cds_wfq_dequeue_blocking): every access to the consumer-side words happens with the structure\'s own mutex held, taken once and released once; result = result of the lock-free core (mutual exclusion of consumers is the documented scheme that rules out ABA / torn dequeues)'))
 META = {
     'level': 'proof', 'bounded_apart': True,
     'trusted_base': ['CBMC 6.11', 'sequential meaning of the uatomic/cmm primitives (atomics_seq.h)', 'canonical pool layout (layout-obliviousness of the verified functions)'],
